@@ -201,14 +201,42 @@ def lin_diff(a, b):
     return linear(("sub", a, b))
 
 
+_VOCAB = None
+
+
+def vocabulary():
+    """Names of the crate's functions the rules were written against (rules/vocabulary.txt).  A function that is not in
+    this inventory is a helper somebody introduced later: the rules know nothing about it by name, so its body is analysed
+    as part of its callers (inlined), exactly as if the code had been written in place."""
+    global _VOCAB
+    if _VOCAB is None:
+        import os
+        try:
+            with open(os.path.join(os.path.dirname(__file__), "vocabulary.txt")) as fh:
+                _VOCAB = set(l.rstrip("\n") for l in fh if l.strip())
+        except OSError:
+            _VOCAB = set()
+    return _VOCAB
+
+
+def is_unknown_helper(fn):
+    return fn.kind != "Closure" and fn.name not in vocabulary()
+
+
+# transparent arithmetic of the id newtypes (macro generated): always analysed in place
+ALWAYS_INLINE = r"^<internal::ids::\w+ as std::ops::(Add|AddAssign)<\w+>>::(add|add_assign)$"
+
+
 class Engine:
     _next_frame = [0]
 
     def __init__(self, fn, facts=None, model=None, cut_edges=(), stop_blocks=(), visit_limit=1,
-                 max_paths=MAX_PATHS, opaque_calls=True, depth=0, inline=None, max_depth=5):
+                 max_paths=MAX_PATHS, opaque_calls=True, depth=0, inline=None, max_depth=5, stack=(), desugar=None):
         Engine._next_frame[0] += 1
         self.fid = Engine._next_frame[0]
         self.depth = depth
+        self.stack = tuple(stack) + (fn.name,)
+        self.desugar = desugar
         self.inline = inline
         self.max_depth = max_depth
         self.fn = fn
@@ -707,6 +735,8 @@ class Engine:
                 callee = self.facts.fns[c[1]]
                 if callable(self.inline) and not self.inline(callee.name):
                     return None
+                if callee.name in self.stack:
+                    return None
                 spread = list(args[1][1]) if len(args) > 1 and args[1][0] == "tuple" else ([] if len(args) < 2 or args[1][0] == "unit" else [args[1]])
                 a0 = args[0] if args[0][0] == "ref" else ("ref", ("loc", c, ()), False)
                 if re.search(r"call_once$", name) and args[0][0] != "ref":
@@ -717,7 +747,13 @@ class Engine:
         r = t.get("resolved")
         if r and r in self.facts.fns and t.get("resolved_kind") == "Item":
             callee = self.facts.fns[r]
-            ok = self.inline(callee.name) if callable(self.inline) else bool(re.search(self.inline, callee.name))
+            if callee.name in self.stack:
+                return None
+            ok = False
+            if self.inline:
+                ok = self.inline(callee.name) if callable(self.inline) else bool(re.search(self.inline, callee.name))
+            if not ok:
+                ok = is_unknown_helper(callee) or re.search(ALWAYS_INLINE, callee.name) is not None
             if ok:
                 return (callee, list(args))
         return None
@@ -726,7 +762,7 @@ class Engine:
         callee, bound = tgt
         name = M.call_name(t)
         sub = Engine(callee, self.facts, self.model, cut_edges=callee.back_edges(), visit_limit=self.visit_limit,
-                     max_paths=self.max_paths, depth=self.depth + 1, inline=self.inline, max_depth=self.max_depth)
+                     max_paths=self.max_paths, depth=self.depth + 1, inline=self.inline, max_depth=self.max_depth, stack=self.stack, desugar=self.desugar)
         for i, a in enumerate(bound):
             path.locals[(sub.fid, i + 1)] = a
         path.events.append(("enter", bb, callee.name, tuple(bound), None, t, self.fn.name))
@@ -759,6 +795,265 @@ class Engine:
                 sp.end = e
                 outs.append((None, sp))
         return outs
+
+    # ---- std combinators taking a closure: analysed as the control flow they stand for ---------------------------
+    def closure_target(self, path, fval, fargs):
+        """(callee Fn, bound args) for calling the closure / fn item value `fval` with `fargs`, or None."""
+        c = fval
+        n = 0
+        while c[0] == "ref" and n < 6:
+            c = self.read_loc(path, c[1]) if c[1][0] == "loc" else c
+            n += 1
+            if c[0] != "ref":
+                break
+        if c[0] == "closure" and self.facts is not None and c[1] in self.facts.fns:
+            callee = self.facts.fns[c[1]]
+            if callee.name in self.stack:
+                return None
+            a0 = fval if fval[0] == "ref" else ("ref", ("loc", c, ()), False)
+            return (callee, [a0] + list(fargs))
+        if c[0] == "fn" and self.facts is not None and c[1] in self.facts.fns:
+            callee = self.facts.fns[c[1]]
+            if callee.name in self.stack:
+                return None
+            return (callee, list(fargs))
+        return None
+
+    def call_closure(self, path, bb, fval, fargs):
+        """Runs the closure on (a fork of) `path`: [(return value, path)] for the paths that return; paths that end
+        otherwise (panic, loop cut inside the closure) are returned with value None and their end set."""
+        tgt = self.closure_target(path, fval, fargs)
+        if tgt is None:
+            return None
+        callee, bound = tgt
+        sub = Engine(callee, self.facts, self.model, cut_edges=callee.back_edges(), visit_limit=self.visit_limit,
+                     max_paths=self.max_paths, depth=self.depth + 1, inline=self.inline, max_depth=self.max_depth, stack=self.stack, desugar=self.desugar)
+        for i, a in enumerate(bound):
+            path.locals[(sub.fid, i + 1)] = a
+        path.events.append(("enter", bb, callee.name, tuple(bound), None, None, self.fn.name))
+        outs = []
+        for sp in sub.run(0, path):
+            if sub.truncated:
+                self.truncated = True
+            e = sp.end
+            sp.end = None
+            if e and e[0] == "return":
+                rv = e[1]
+                n_ = 0
+                # a "reference to a local of the closure" is an artefact of modelling by-ref pure calls as identities
+                while rv[0] == "ref" and rv[1][0] == "loc" and rv[1][1][0] == "local" and rv[1][1][1] == sub.fid and n_ < 6:
+                    rv = self.read_loc(sp, rv[1])
+                    n_ += 1
+                sp.events.append(("call", bb, callee.name, tuple(bound), rv, None, self.fn.name, tuple(bound), "closure"))
+                outs.append((rv, sp))
+            elif e and e[0] in ("cut", "loop-limit", "stop"):
+                ret = ("app", callee.name, tuple(bound))
+                outs.append((ret, sp))
+            else:
+                sp.end = e
+                outs.append((None, sp))
+        return outs
+
+    def combinator(self, path, bb, t, args, go):
+        """Option/Result/Iterator methods that take a closure, analysed as the branch or loop they abbreviate (only when the
+        closure value is known).  Loop-like methods are explored like a `for` loop: one path without an iteration and one
+        path that runs the body once on a fresh item and ends at the 'back edge' (end = ("cut", bb))."""
+        nm = M.call_name(t)
+        OPT, RES = "std::option::Option", "std::result::Result"
+
+        def finish(p, ret):
+            p.events.append(("call", bb, nm, tuple(args), ret, t, self.fn.name, tuple(args), "desugared"))
+            if t.get("target") is None:
+                p.end = ("diverge", bb, nm)
+                return (None, p)
+            self.write_loc(p, self.loc_of_place(p, t["dest"]), ret, bb)
+            return go(t["target"], p)
+
+        def cut(p):
+            p.events.append(("call", bb, nm, tuple(args), None, t, self.fn.name, tuple(args), "desugared-iteration"))
+            p.end = ("cut", bb)
+            return (None, p)
+
+        def dead(p):
+            return (None, p)
+
+        def variants(v, a, b):
+            """[(variant name, path)] consistent with what is known about v"""
+            kv = self.known_variant(path, v)
+            if kv in (a, b):
+                return [(kv, path)]
+            pa = path.fork()
+            self.assume(pa, ("isvar", v, a), True)
+            self.assume(path, ("isvar", v, b), True)
+            return [(a, pa), (b, path)]
+
+        def payload(v, var):
+            if v[0] == "adt" and v[2] == var:
+                return v[3][0]
+            return ("field", ("downcast", v, var), "0")
+
+        def on_bool(p, r, if_true, if_false):
+            if r == ("bool", True):
+                return [if_true(p)]
+            if r == ("bool", False):
+                return [if_false(p)]
+            d = self.decide(p, r) if hasattr(self, "decide") else None
+            if d is True:
+                return [if_true(p)]
+            if d is False:
+                return [if_false(p)]
+            pt = p.fork()
+            self.assume(pt, r, True)
+            self.assume(p, r, False)
+            return [if_true(pt), if_false(p)]
+
+        m = re.search(r"option::Option::<.*>::(map|map_or|map_or_else|and_then|is_some_and|is_none_or|filter|unwrap_or_else|ok_or_else|or_else)(::<.*>)?$", nm)
+        if m and args:
+            meth = m.group(1)
+            v = self.deref_val(path, args[0]) if args[0][0] == "ref" else args[0]
+            f = args[-1]
+            if self.closure_target(path, f, []) is None and meth not in ():
+                return None
+            outs = []
+            for var, p in variants(v, "Some", "None"):
+                if var == "None":
+                    if meth in ("map", "and_then", "filter"):
+                        outs.append(finish(p, ("adt", OPT, "None", ())))
+                    elif meth == "map_or":
+                        outs.append(finish(p, args[1]))
+                    elif meth == "is_some_and":
+                        outs.append(finish(p, ("bool", False)))
+                    elif meth == "is_none_or":
+                        outs.append(finish(p, ("bool", True)))
+                    elif meth in ("map_or_else", "unwrap_or_else", "ok_or_else", "or_else"):
+                        df = args[1]
+                        rs = self.call_closure(p, bb, df, [])
+                        if rs is None:
+                            return None
+                        for r, sp in rs:
+                            if r is None:
+                                outs.append(dead(sp))
+                            else:
+                                outs.append(finish(sp, ("adt", RES, "Err", (r,)) if meth == "ok_or_else" else r))
+                else:
+                    x = payload(v, "Some")
+                    if meth == "unwrap_or_else":
+                        outs.append(finish(p, x))
+                        continue
+                    if meth == "ok_or_else":
+                        outs.append(finish(p, ("adt", RES, "Ok", (x,))))
+                        continue
+                    if meth == "or_else":
+                        outs.append(finish(p, v))
+                        continue
+                    xa = ("ref", ("loc", x, ()), False) if meth in ("filter",) else x
+                    rs = self.call_closure(p, bb, f, [xa])
+                    if rs is None:
+                        return None
+                    for r, sp in rs:
+                        if r is None:
+                            outs.append(dead(sp))
+                        elif meth == "map":
+                            outs.append(finish(sp, ("adt", OPT, "Some", (r,))))
+                        elif meth == "filter":
+                            outs.extend(on_bool(sp, r, lambda q: finish(q, ("adt", OPT, "Some", (x,))), lambda q: finish(q, ("adt", OPT, "None", ()))))
+                        else:
+                            outs.append(finish(sp, r))
+            return outs
+        m = re.search(r"result::Result::<.*>::(map|map_err|and_then|unwrap_or_else|or_else)(::<.*>)?$", nm)
+        if m and args:
+            meth = m.group(1)
+            v = self.deref_val(path, args[0]) if args[0][0] == "ref" else args[0]
+            f = args[-1]
+            if self.closure_target(path, f, []) is None:
+                return None
+            outs = []
+            for var, p in variants(v, "Ok", "Err"):
+                x = payload(v, var)
+                passes = (var == "Ok" and meth in ("map", "and_then")) or (var == "Err" and meth in ("map_err", "unwrap_or_else", "or_else"))
+                if not passes:
+                    outs.append(finish(p, x if meth == "unwrap_or_else" else (v if v[0] == "adt" else ("adt", RES, var, (x,)))))
+                    continue
+                rs = self.call_closure(p, bb, f, [x])
+                if rs is None:
+                    return None
+                for r, sp in rs:
+                    if r is None:
+                        outs.append(dead(sp))
+                    elif meth == "map":
+                        outs.append(finish(sp, ("adt", RES, "Ok", (r,))))
+                    elif meth == "map_err":
+                        outs.append(finish(sp, ("adt", RES, "Err", (r,))))
+                    else:
+                        outs.append(finish(sp, r))
+            return outs
+        m = re.search(r"iter::Iterator>::(for_each|try_for_each|position|find|any|all|find_map)(::<.*>)?$", nm)
+        if m and len(args) >= 2:
+            meth = m.group(1)
+            f = args[-1]
+            if self.closure_target(path, f, []) is None:
+                return None
+            item = ("sym", "item@bb%d" % bb)
+            self_ty = t.get("callee_self") or ""
+            if self_ty.startswith("std::slice::Iter") or "btree_set::Iter" in self_ty or "hash_map::Iter" in self_ty or "btree_map::Iter" in self_ty:
+                item = ("ref", ("loc", item, ()), False)
+            outs = []
+            # no (further) element
+            p0 = path.fork()
+            dty = (t.get("dest") or {}).get("ty", "")
+            exhausted = {"for_each": ("unit",), "position": ("adt", OPT, "None", ()), "find": ("adt", OPT, "None", ()), "find_map": ("adt", OPT, "None", ()),
+                         "any": ("bool", False), "all": ("bool", True),
+                         "try_for_each": ("adt", RES, "Ok", (("unit",),)) if "Result<" in dty else (("adt", OPT, "Some", (("unit",),)) if "Option<" in dty else ("adt", "std::ops::ControlFlow", "Continue", (("unit",),)))}[meth]
+            src = self.deref_val(path, args[0]) if args[0][0] == "ref" else args[0]
+            p0.events.append(("iter-exhausted", bb, nm, src))
+            outs.append(finish(p0, exhausted))
+            # one element
+            path.events.append(("iter-item", bb, nm, src, item))
+            xa = ("ref", ("loc", item, ()), False) if meth == "find" else item
+            rs = self.call_closure(path, bb, f, [xa])
+            if rs is None:
+                return None
+            for r, sp in rs:
+                if r is None:
+                    outs.append(dead(sp))
+                elif meth == "for_each":
+                    outs.append(cut(sp))
+                elif meth == "try_for_each":
+                    kv = self.known_variant(sp, r)
+                    if kv in ("Err", "None", "Break"):
+                        outs.append(finish(sp, r))
+                    elif kv in ("Ok", "Some", "Continue"):
+                        outs.append(cut(sp))
+                    else:
+                        bad_v = "Err" if "Result<" in dty else ("None" if "Option<" in dty else "Break")
+                        good_v = "Ok" if "Result<" in dty else ("Some" if "Option<" in dty else "Continue")
+                        pb = sp.fork()
+                        self.assume(pb, ("isvar", r, bad_v), True)
+                        outs.append(finish(pb, r))
+                        self.assume(sp, ("isvar", r, good_v), True)
+                        outs.append(cut(sp))
+                elif meth == "position":
+                    outs.extend(on_bool(sp, r, lambda q: finish(q, ("adt", OPT, "Some", (("sym", "index@bb%d" % bb),))), cut))
+                elif meth == "find":
+                    outs.extend(on_bool(sp, r, lambda q: finish(q, ("adt", OPT, "Some", (item,))), cut))
+                elif meth == "any":
+                    outs.extend(on_bool(sp, r, lambda q: finish(q, ("bool", True)), cut))
+                elif meth == "all":
+                    outs.extend(on_bool(sp, r, cut, lambda q: finish(q, ("bool", False))))
+                elif meth == "find_map":
+                    kv = self.known_variant(sp, r)
+                    if kv == "Some":
+                        outs.append(finish(sp, r))
+                    elif kv == "None":
+                        outs.append(cut(sp))
+                    else:
+                        pb = sp.fork()
+                        self.assume(pb, ("isvar", r, "Some"), True)
+                        outs.append(finish(pb, r))
+                        self.assume(sp, ("isvar", r, "None"), True)
+                        outs.append(cut(sp))
+            return outs
+        return None
 
     # ---- driver -------------------------------------------------------------------------------
     def run(self, start=0, init=None):
@@ -869,7 +1164,11 @@ class Engine:
                 outcomes = self.model.call(self, path, bb, t, args)
             if outcomes is None:
                 outcomes = self.default_call(path, bb, t, args)
-            if outcomes is None and self.inline and self.depth < self.max_depth:
+            if outcomes is None and self.desugar and self.depth < self.max_depth and re.search(self.desugar, name):
+                outs_ = self.combinator(path, bb, t, args, go)
+                if outs_ is not None:
+                    return outs_
+            if outcomes is None and self.depth < self.max_depth:
                 tgt = self.inline_target(path, t, args)
                 if tgt is not None:
                     return self.do_inline(path, bb, t, args, tgt, go)
